@@ -118,7 +118,19 @@ func (tw *tokenWorld) pickPresentation(ch *kernel.Chooser, target string) presen
 	w := tw.w
 	now := time.Now()
 	c := w.Store.Clients[target]
-	switch x := ch.Int(22); {
+	x := ch.Int(23)
+	if c != nil && c.Auth == oidc.AuthMethodPrivateKeyJWT && ch.Bool(1, 3) {
+		// a client that authenticates by assertion: more of the assertion variants
+		x = []int{13, 14, 15, 16, 17, 18, 22, 22}[ch.Int(8)]
+	}
+	switch {
+	case x == 22:
+		// a long-lived assertion that is presented again more than an hour after it was issued: not expired, but older
+		// than the provider admits (its verifier's maximum age is one hour)
+		age := []time.Duration{61 * time.Minute, 2 * time.Hour, 25 * time.Hour}[ch.Int(3)]
+		p := mkAssertion(w, target, target, target, "", []string{w.Issuer}, now.Add(-age), now.Add(time.Hour))
+		p.label = "assertion-older-than-an-hour"
+		return p
 	case x >= 20: // authenticates correctly as itself while the body names another client
 		p := rightPresentation(w, target)
 		if p.creds.Mode == "basic" || p.creds.Mode == "assertion" {
